@@ -155,10 +155,10 @@ func h14w(M, L, R int) {
 			} else {
 				a := limit - pos
 				if a < lens[k] {
-					if a > 0 {
-						want[nw] = vEv{kind: 1, hasEnv: true, flags: flags[k], elen: uint32(lens[k]), n: uint64(a), idx: x}
-						nw++
-					}
+					// cut inside the message - also exactly after its prefix (0 payload bytes seen): the announced
+					// message must not vanish from the trace
+					want[nw] = vEv{kind: 1, hasEnv: true, flags: flags[k], elen: uint32(lens[k]), n: uint64(a), idx: x}
+					nw++
 					stop = true
 				} else {
 					want[nw] = vEv{kind: 1, hasEnv: true, flags: flags[k], elen: uint32(lens[k]), n: uint64(lens[k]), idx: x}
@@ -304,10 +304,10 @@ func h14a(M, L, R int, isRequest bool, withDecomp bool) {
 			} else {
 				a := limit - pos
 				if a < lens[k] {
-					if a > 0 {
-						want[nw] = vEv{kind: 1, hasEnv: true, flags: flags[k], elen: uint32(lens[k]), n: uint64(a), idx: x}
-						nw++
-					}
+					// cut inside the message - also exactly after its prefix (0 payload bytes seen): the announced
+					// message must not vanish from the trace
+					want[nw] = vEv{kind: 1, hasEnv: true, flags: flags[k], elen: uint32(lens[k]), n: uint64(a), idx: x}
+					nw++
 					stop = true
 				} else {
 					want[nw] = vEv{kind: 1, hasEnv: true, flags: flags[k], elen: uint32(lens[k]), n: uint64(lens[k]), idx: x}
